@@ -980,4 +980,308 @@ def filteredDeepUp : List Str → Bool
   | a :: b :: rest => (isFilteredDeep a && b == dotdot) || filteredDeepUp (b :: rest)
   | _ => false
 
+/-! ### `find_first=True` against `find_first=False` for expressions without `'..'` -/
+
+def NoUp (sought : List Str) : Prop := ∀ s ∈ sought, s ≠ dotdot
+
+theorem NoUp_drop (sought : List Str) (h : NoUp sought) (n : Nat) : NoUp (sought.drop n) :=
+  fun s hs => h s (List.mem_of_mem_drop hs)
+
+/-- the `find_first=False` run returns a list and leaves `first_found` unset; the `True` run
+returns a prefix of it — all of it unless `first_found` got set, and then a non-empty one -/
+def Sync (rF rT : Res) : Prop :=
+  ∀ o, rF = .ok o → ∃ hs, o = ⟨some hs, false⟩ ∧ ∃ hs' ff', rT = .ok ⟨some hs', ff'⟩ ∧
+    hs' <+: hs ∧ (ff' = false → hs' = hs) ∧ (ff' = true → hs' ≠ [])
+
+def FnSync (v : XVal) : Prop :=
+  ∀ sought passed any, NoUp sought →
+    Sync (recurse false v sought passed any false) (recurse true v sought passed any false)
+
+theorem guarded_sync (c : Bool) (rF rT : Res) (found : List Hit) (any : Nat) (h : Sync rF rT)
+    (xF : LoopOut ⊕ (List Hit × Bool))
+    (hF : guarded c (fun _ => rF) found false any = .ok xF) :
+    ∃ f1, xF = .inr (f1, false) ∧ found <+: f1 ∧
+      (guarded c (fun _ => rT) found false any = .ok (.inr (f1, false)) ∨
+       ∃ f1', guarded c (fun _ => rT) found false any = .ok (.inl (.ret f1' true)) ∧
+          f1' <+: f1 ∧ f1' ≠ []) := by
+  unfold guarded at hF ⊢
+  cases c with
+  | false =>
+    simp at hF; subst hF
+    exact ⟨found, rfl, List.prefix_refl _, Or.inl (by simp)⟩
+  | true =>
+    simp only [if_true] at hF ⊢
+    cases hr : rF with
+    | error e => rw [hr] at hF; simp [afterCall] at hF
+    | ok o =>
+      obtain ⟨hs, ho, hs', ff', hT, hpre, heq, hne⟩ := h o hr
+      subst ho
+      rw [hr] at hF
+      simp [afterCall] at hF
+      subst hF
+      refine ⟨found ++ hs, rfl, List.prefix_append _ _, ?_⟩
+      rw [hT]
+      cases ff' with
+      | false =>
+        left
+        have := heq rfl
+        subst this
+        simp [afterCall]
+      | true =>
+        right
+        refine ⟨found ++ hs', by simp [afterCall], ?_, ?_⟩
+        · exact (List.prefix_append_right_inj found).2 hpre
+        · have := hne rfl
+          simp [this]
+
+theorem forLoop_mono (st : Step) (sought passed : List Str) (any : Nat) (kids : List Kid) :
+    ∀ (found : List Hit) (idxs : List (Str × Nat)) (ff : Bool) (f : List Hit) (ff' : Bool),
+    forLoop st sought passed any kids found idxs ff = .ok (.ret f ff') → found <+: f := by
+  induction kids with
+  | nil => intro found idxs ff f ff' h; simp [forLoop] at h; rw [h.1]; exact List.prefix_refl _
+  | cons k kids ih =>
+    obtain ⟨t, v, fn⟩ := k
+    intro found idxs ff f ff' h
+    simp only [forLoop] at h
+    have hg : ∀ (c : Bool) (r : Unit → Res) (fd : List Hit) (b : Bool) (x : LoopOut ⊕ (List Hit × Bool)),
+        guarded c r fd b any = .ok x →
+        (∀ f2 b2, x = .inr (f2, b2) → fd <+: f2) ∧ (∀ f2 b2, x = .inl (.ret f2 b2) → fd <+: f2) := by
+      intro c r fd b x hx
+      unfold guarded at hx
+      split at hx
+      · unfold afterCall at hx
+        split at hx
+        · simp at hx
+        · simp at hx; subst hx; simp
+        · split at hx <;> (simp at hx; subst hx; simp)
+      · simp at hx; subst hx; simp
+    split at h
+    · cases hg1 : guarded (idxOk st.idx (cnt idxs t) && condHolds st.cond v)
+          (fun _ => fn (sought.drop 1) (passed ++ [stepName st t (cnt idxs t)]) any ff) found ff any with
+      | error e => rw [hg1] at h; simp at h
+      | ok x1 =>
+        have h1 := hg _ _ _ _ _ hg1
+        rw [hg1] at h
+        cases x1 with
+        | inl o1 => simp at h; subst h; exact h1.2 _ _ rfl
+        | inr p1 =>
+          obtain ⟨found1, ff1⟩ := p1
+          simp only at h
+          have hp1 := h1.1 _ _ rfl
+          cases hg2 : guarded (any == 1)
+              (fun _ => fn sought (passed ++ [stepName st t (cnt idxs t)]) any ff1) found1 ff1 any with
+          | error e => rw [hg2] at h; simp at h
+          | ok x2 =>
+            have h2 := hg _ _ _ _ _ hg2
+            rw [hg2] at h
+            cases x2 with
+            | inl o2 => simp at h; subst h; exact List.IsPrefix.trans hp1 (h2.2 _ _ rfl)
+            | inr p2 =>
+              obtain ⟨found2, ff2⟩ := p2
+              simp only at h
+              exact List.IsPrefix.trans hp1 (List.IsPrefix.trans (h2.1 _ _ rfl) (ih _ _ _ _ _ h))
+    · exact ih _ _ _ _ _ h
+
+theorem forLoop_sync (st : Step) (sought passed : List Str) (any : Nat) (hs : NoUp sought)
+    (post : List Item) :
+    ∀ (found : List Hit) (idxs : List (Str × Nat)) (out : LoopOut),
+    (∀ it ∈ post, FnSync it.2.2) →
+    forLoop st sought passed any (kidFns false post) found idxs false = .ok out →
+    ∃ f, out = .ret f false ∧ ∃ f' ff',
+      forLoop st sought passed any (kidFns true post) found idxs false = .ok (.ret f' ff') ∧
+      f' <+: f ∧ (ff' = false → f' = f) ∧ (ff' = true → f' ≠ []) := by
+  induction post with
+  | nil =>
+    intro found idxs out _ h
+    simp [kidFns, forLoop] at h
+    subst h
+    exact ⟨found, rfl, found, false, by simp [kidFns, forLoop], List.prefix_refl _, fun _ => rfl, by simp⟩
+  | cons it post ih =>
+    obtain ⟨t, a, v⟩ := it
+    intro found idxs out hK h
+    have hKv : FnSync v := hK (t, a, v) (by simp)
+    have hK' : ∀ it ∈ post, FnSync it.2.2 := fun it hit => hK it (by simp [hit])
+    simp only [kidFns, forLoop] at h ⊢
+    by_cases htt : tagTest st t any = true
+    · simp only [htt, if_true] at h ⊢
+      cases hg1 : guarded (idxOk st.idx (cnt idxs t) && condHolds st.cond v)
+          (fun _ => recurse false v (sought.drop 1) (passed ++ [stepName st t (cnt idxs t)]) any false)
+          found false any with
+      | error e => rw [hg1] at h; simp at h
+      | ok x1 =>
+        obtain ⟨f1, hx1, hp1, hT1⟩ := guarded_sync _ _ _ found any
+          (hKv (sought.drop 1) (passed ++ [stepName st t (cnt idxs t)]) any (NoUp_drop _ hs 1)) x1 hg1
+        subst hx1
+        rw [hg1] at h
+        simp only at h
+        cases hg2 : guarded (any == 1)
+            (fun _ => recurse false v sought (passed ++ [stepName st t (cnt idxs t)]) any false)
+            f1 false any with
+        | error e => rw [hg2] at h; simp at h
+        | ok x2 =>
+          obtain ⟨f2, hx2, hp2, hT2⟩ := guarded_sync _ _ _ f1 any
+            (hKv sought (passed ++ [stepName st t (cnt idxs t)]) any hs) x2 hg2
+          subst hx2
+          rw [hg2] at h
+          simp only at h
+          obtain ⟨f, hout, f', ff', hTrest, hpre, heq, hne⟩ := ih f2 (incr idxs t) out hK' h
+          have hmono : f2 <+: f := by
+            subst hout
+            exact forLoop_mono _ _ _ _ _ _ _ _ _ _ h
+          refine ⟨f, hout, ?_⟩
+          rcases hT1 with hT1 | ⟨f1', hT1, hp1', hne1⟩
+          · rw [hT1]
+            simp only
+            rcases hT2 with hT2 | ⟨f2', hT2, hp2', hne2⟩
+            · rw [hT2]
+              simp only
+              exact ⟨f', ff', hTrest, hpre, heq, hne⟩
+            · rw [hT2]
+              exact ⟨f2', true, rfl, List.IsPrefix.trans hp2' hmono, by simp, fun _ => hne2⟩
+          · rw [hT1]
+            exact ⟨f1', true, rfl, List.IsPrefix.trans hp1' (List.IsPrefix.trans hp2 hmono), by simp,
+              fun _ => hne1⟩
+    · simp only [htt] at h ⊢
+      exact ih found idxs out hK' h
+
+def RetSync (outF : LoopOut) (rT : PyM LoopOut) : Prop :=
+  ∃ f, outF = .ret f false ∧ ∃ f' ff', rT = .ok (.ret f' ff') ∧
+    f' <+: f ∧ (ff' = false → f' = f) ∧ (ff' = true → f' ≠ [])
+
+theorem iter_sync (v : XVal) (kidsF kidsT : List Kid) (sought passed : List Str) (any : Nat)
+    (found : List Hit) (hs : NoUp sought)
+    (hk : ∀ items, v = .nodes items →
+      kidsF = kidFns false items ∧ kidsT = kidFns true items ∧ ∀ it ∈ items, FnSync it.2.2)
+    (out : LoopOut) (h : iter v kidsF sought passed any found false = .ok out) :
+    RetSync out (iter v kidsT sought passed any found false) := by
+  have hcur : (if any = 2 then star2 else sought.headD []) ≠ dotdot := by
+    split
+    · decide
+    · cases sought with
+      | nil => simp [dotdot]
+      | cons a rest => simpa using hs a (by simp)
+  unfold iter at h ⊢
+  simp only [hcur, if_false] at h ⊢
+  cases hp : parseStep (if any = 2 then star2 else sought.headD []) with
+  | none => rw [hp] at h; simp at h
+  | some st =>
+    rw [hp] at h
+    simp only at h ⊢
+    by_cases hne : isNonEmptyNodes v = true
+    · simp only [hne, if_true] at h ⊢
+      cases v with
+      | text t => simp [isNonEmptyNodes] at hne
+      | nodes items =>
+        obtain ⟨hF, hT, hK⟩ := hk items rfl
+        rw [hF] at h
+        rw [hT]
+        exact forLoop_sync st sought passed _ hs items found [] out hK h
+    · simp only [hne] at h ⊢
+      simp at h
+      subst h
+      exact ⟨_, rfl, _, false, rfl, List.prefix_refl _, fun _ => rfl, by simp⟩
+
+theorem finish_sync (v : XVal) (passed : List Str) :
+    Sync (finish false v passed false) (finish true v passed false) := by
+  intro o ho
+  simp [finish] at ho
+  subst ho
+  refine ⟨[(passed, v)], rfl, [(passed, v)], !passed.isEmpty, by simp [finish], List.prefix_refl _,
+    fun _ => rfl, by simp⟩
+
+theorem loopEmpty_sync (v : XVal) (kidsF kidsT : List Kid) (passed : List Str) (any : Nat)
+    (found : List Hit)
+    (hk : ∀ items, v = .nodes items →
+      kidsF = kidFns false items ∧ kidsT = kidFns true items ∧ ∀ it ∈ items, FnSync it.2.2) :
+    Sync (loopEmpty false v kidsF passed any found false) (loopEmpty true v kidsT passed any found false) := by
+  unfold loopEmpty
+  split
+  · intro o ho
+    cases hi : iter v kidsF [] passed any found false with
+    | error e => rw [hi] at ho; simp at ho
+    | ok out =>
+      obtain ⟨f, hout, f', ff', hT, hpre, heq, hne⟩ :=
+        iter_sync v kidsF kidsT [] passed any found (by intro s hs; cases hs) hk out hi
+      subst hout
+      rw [hi] at ho
+      simp at ho
+      subst ho
+      exact ⟨f, rfl, f', ff', by rw [hT], hpre, heq, hne⟩
+  · exact finish_sync v passed
+
+theorem whileLoop_sync (v : XVal) (kidsF kidsT : List Kid) (passed sought : List Str) (any : Nat)
+    (found : List Hit) (hs : NoUp sought)
+    (hk : ∀ items, v = .nodes items →
+      kidsF = kidFns false items ∧ kidsT = kidFns true items ∧ ∀ it ∈ items, FnSync it.2.2) :
+    Sync (whileLoop false v kidsF passed sought any found false)
+      (whileLoop true v kidsT passed sought any found false) := by
+  cases sought with
+  | nil =>
+    rw [whileLoop_nil, whileLoop_nil]
+    exact loopEmpty_sync v kidsF kidsT passed any found hk
+  | cons a rest =>
+    intro o ho
+    rw [whileLoop] at ho
+    cases hi : iter v kidsF (a :: rest) passed any found false with
+    | error e => rw [hi] at ho; simp at ho
+    | ok out =>
+      obtain ⟨f, hout, f', ff', hT, hpre, heq, hne⟩ :=
+        iter_sync v kidsF kidsT (a :: rest) passed any found hs hk out hi
+      subst hout
+      rw [hi] at ho
+      simp at ho
+      subst ho
+      refine ⟨f, rfl, f', ff', ?_, hpre, heq, hne⟩
+      rw [whileLoop, hT]
+
+mutual
+theorem recurse_sync : ∀ (v : XVal), FnSync v
+  | .text t => by
+    intro sought passed any hs
+    rw [recurse_text, recurse_text]
+    exact whileLoop_sync (.text t) [] [] passed sought any [] hs (by intro items hi; cases hi)
+  | .nodes items => by
+    intro sought passed any hs
+    rw [recurse_nodes, recurse_nodes]
+    exact whileLoop_sync (.nodes items) _ _ passed sought any [] hs
+      (by intro items' hi; cases hi; exact ⟨rfl, rfl, items_sync items⟩)
+theorem items_sync : ∀ (items : List Item), ∀ it ∈ items, FnSync it.2.2
+  | [], _, hit => by cases hit
+  | (t, a, v) :: rest, it, hit => by
+    rcases List.mem_cons.1 hit with h | h
+    · subst h; exact recurse_sync v
+    · exact items_sync rest it h
+end
+
+/-- without `'..'`: the `find_first=True` run returns a prefix of the `False` run's list, with
+the same first element, and `findall` (`False`) never returns `None` -/
+theorem findfirst_noUp (root : XVal) (sought : List Str) (hs : NoUp sought)
+    (r : Option (List Hit)) (h : findallL false root sought = .ok r) :
+    findfirstL root sought = .ok (firstOf r) ∧
+    containsL root sought = .ok (firstOf r).isSome ∧
+    ∃ l l', r = some l ∧ findallL true root sought = .ok (some l') ∧ l' <+: l := by
+  unfold findallL at h
+  cases hr : recurse false root sought [] 0 false with
+  | error e => rw [hr] at h; simp at h
+  | ok o =>
+    rw [hr] at h
+    simp at h
+    obtain ⟨hs0, ho, hs', ff', hT, hpre, heq, hne⟩ := recurse_sync root sought [] 0 hs o hr
+    subst ho
+    simp at h
+    subst h
+    have hfa : findallL true root sought = .ok (some hs') := by simp [findallL, hT]
+    have hfirst : firstOf (some hs') = firstOf (some hs0) := by
+      cases ff' with
+      | false => rw [heq rfl]
+      | true =>
+        have hn := hne rfl
+        obtain ⟨tl, htl⟩ := hpre
+        cases hs' with
+        | nil => exact absurd rfl hn
+        | cons x xs => subst htl; simp [firstOf]
+    refine ⟨?_, ?_, hs0, hs', rfl, hfa, hpre⟩
+    · simp [findfirstL, hfa, hfirst]
+    · simp [containsL, hfa, hfirst]
+
 end N0.NXml
